@@ -27,6 +27,7 @@ type EsSpec struct {
 	VideoMs  int  // video frame interval (default 40)
 	LateAudio int // audio starts only after this many video frames (0 = from the start)
 	TsBack    bool // one backward timestamp jump to below the stream's first timestamp
+	TrailingNonIdr bool // key frames may end with a non-IDR NAL unit (filler data)
 }
 
 type EsFrame struct {
@@ -157,6 +158,9 @@ func BuildEs(r *rand.Rand, inc int, sp EsSpec) *EsStream {
 						hdr = []byte{[]byte{1, 2, 8, 9}[r.Intn(4)] << 1, 1}
 						if key {
 							hdr = []byte{[]byte{19, 20}[r.Intn(2)] << 1, 1}
+							if j > slice && sp.TrailingNonIdr {
+								hdr = []byte{38 << 1, 1} // filler data after the IRAP slices
+							}
 						}
 						if size < 2 {
 							size = 2
@@ -165,6 +169,9 @@ func BuildEs(r *rand.Rand, inc int, sp EsSpec) *EsStream {
 						hdr = []byte{[]byte{0x41, 0x01, 0x21, 0x0c}[r.Intn(4)]}
 						if key {
 							hdr = []byte{0x65}
+							if j > slice && sp.TrailingNonIdr {
+								hdr = []byte{0x0c} // filler data NAL after the IDR slices
+							}
 						}
 					}
 				}
